@@ -18,7 +18,7 @@ FILTER=$(grep -A3 -E '^\+\s*#\[(tokio::)?test' $SD/demo$K.diff | grep -E 'fn ' |
 [ -z "$FILTER" ] && FILTER=$(echo "$TESTS" | head -1)
 NEWFILE=$(grep -E '^\+\+\+ b/tests/' $SD/demo$K.diff | sed -E 's#^\+\+\+ b/tests/(.*)\.rs#\1#' | head -1)
 [ -n "$DEMOFILTER" ] && FILTER=$DEMOFILTER
-if [ -n "$NEWFILE" ] && [ -z "$DEMOFILTER" ]; then CMD="cargo test --offline -p ethercrab --test $NEWFILE"; else CMD="cargo test --offline -p ethercrab --lib $FILTER"; fi
+if [ -n "${DEMOCMD:-}" ]; then CMD="$DEMOCMD"; elif [ -n "$NEWFILE" ] && [ -z "$DEMOFILTER" ]; then CMD="cargo test --offline -p ethercrab --test $NEWFILE"; else CMD="cargo test --offline -p ethercrab --lib $FILTER"; fi
 echo "demo command: $CMD"
 $CMD > $WT/demo_without.txt 2>&1; RC0=$?
 git apply $SD/patch$K.diff
